@@ -692,13 +692,13 @@ func c10RandTag(rng *rand.Rand, kind int) c10Tag {
 	case 2:
 		tg := c10Tag{K: "fb", Addr: c10W64(c10RandWord(rng)), Pitch: c10W32(uint32(c10RandWord(rng))), W: c10W32(uint32(c10RandWord(rng))),
 			H: c10W32(uint32(c10RandWord(rng))), Bpp: rng.Intn(256), Ci: []int{}}
-		tg.Ft = []int{0, 1, 1, 1, 2, 3, 255, rng.Intn(256)}[rng.Intn(8)]
+		tg.Ft = []int{0, 0, 1, 1, 1, 2, 3, 255, rng.Intn(256)}[rng.Intn(9)]
 		n := 0
 		switch tg.Ft {
 		case 1:
 			n = 6 + rng.Intn(3)*rng.Intn(4)
 		case 0:
-			n = 4 + 3*rng.Intn(5)
+			n = 2 + 3*rng.Intn(6) // colour count + palette entries, where an RGB layout would sit
 		default:
 			n = rng.Intn(3) * rng.Intn(8)
 		}
